@@ -2076,3 +2076,41 @@ Example two_reads_reversed :
   L s1 = 20 /\ L s2 = 20 /\ hgt (read2 (s_pend s2) (s_store s1)) = 10 /\
   hgt (read2 (s_pend s1) (s_store s2)) = 20.
 Proof. vm_compute. auto. Qed.
+
+(** ** candidate finding F31: the single flight ignores the joiner's options.
+    [gets_of tr] lists the TrustedHead options of the underlying getter calls in order of
+    issue: flight [g] is the [g]-th of them.  A caller that decided (re)initialisation
+    ([KInit]: no or an expired subjective head) should only ever take the answer of a request
+    made WITHOUT a trusted head (answered by the trusted peers alone). *)
+Definition init_joins_only_init_flights (p : params) (tv : hdr -> hdr -> tvres) (s : sstate) (l : list cev) : Prop :=
+  forall i g, let '(c, tr) := crun p tv (cinit s) l in
+              c_pc c i = PWait KInit g -> nth_error (gets_of tr) g = Some None.
+
+(** the witness: trusting period 100, recency threshold 30; the subjective head (time 0) is
+    stale but not expired at 99; caller 0 opens a flight WITH the trusted head; the clock passes
+    the expiry (101); caller 1 decides (re)initialisation and joins the open flight; the answer
+    (height 20, time 100) comes; caller 1 adopts it *)
+Definition f31_p : params := Params 100 10 0 10 2.
+Definition f31_sbj : hdr := Hdr false 1 17 0 17 16 true.
+Definition f31_new : hdr := Hdr false 1 20 100 20 19 true.
+Definition f31_s : sstate := SState (Some f31_sbj) None 99.
+Definition f31_l1 : list cev :=
+  [CStep 0 ICall; CStep 0 INone; CTick 2; CStep 1 ICall; CStep 1 INone].
+Definition f31_l2 : list cev :=
+  [CStep 0 (IAns (GOk f31_new)); CStep 1 INone; CStep 1 (IBif ([], false)); CStep 1 (ITail (TOk None));
+   CStep 1 (IBif ([], false)); CStep 1 INone].
+
+Lemma f31_refuted :
+  (let '(c, tr) := crun f31_p (fun _ _ => TVOk) (cinit f31_s) f31_l1 in
+   c_pc c 1%nat = PWait KInit 0 /\ nth_error (gets_of tr) 0 = Some (Some f31_sbj) /\
+   decide f31_p (c_s c) = DRequest KInit /\ is_expired f31_p (s_now (c_s c)) f31_sbj = true) /\
+  (let '(c, tr) := crun f31_p (fun _ _ => TVOk) (cinit f31_s) (f31_l1 ++ f31_l2) in
+   gets_of tr = [Some f31_sbj] /\ In (OGot 1 (GOk f31_new)) tr /\ In (ORet 1 (ROk f31_new)) tr /\
+   local_head (c_s c) = Some f31_new).
+Proof. vm_compute. repeat split; auto 20. Qed.
+
+Lemma f31_not_all : ~ (forall p tv s l, init_joins_only_init_flights p tv s l).
+Proof.
+  intros H. specialize (H f31_p (fun _ _ => TVOk) f31_s f31_l1). unfold init_joins_only_init_flights in H.
+  specialize (H 1%nat 0%nat). revert H. vm_compute. intros H. specialize (H eq_refl). discriminate.
+Qed.
